@@ -1377,10 +1377,24 @@ def run_large_sidefiles(case):
         bigvals = [r.randrange(3) for _ in range(1000)] * (nbig // 1000)
         with open(os.path.join(sub, "arrays/big.txt"), "w") as f:
             f.write(("\n" if r.random() < 0.6 else " ").join(str(v) for v in bigvals))
+        import time as _time
+        t0_ = _time.process_time()
         gotbig = [int(x) for x in text_array_rw.load_1D_array_txt(os.path.join(sub, "arrays/big.txt"), int)]
+        t_big = _time.process_time() - t0_
         counts["large_sidefile_entries"] = counts.get("large_sidefile_entries", 0) + nbig
         if gotbig != bigvals:
             bad.append({"what": "large side file: the text reader does not return the values in the file", "entries_in_file": nbig, "entries_read": len(gotbig), "case": case})
+        # growth of the reading time with the file length, measured in CPU time on the same reader: a quarter of the file must
+        # not be more than ~9 times cheaper (linear: 4 times; quadratic: 16 times) once the times are measurable at all
+        with open(os.path.join(sub, "arrays/quarter.txt"), "w") as f:
+            f.write("\n".join(str(v) for v in bigvals[:nbig // 4]))
+        t0_ = _time.process_time()
+        text_array_rw.load_1D_array_txt(os.path.join(sub, "arrays/quarter.txt"), int)
+        t_quarter = _time.process_time() - t0_
+        counts["reader_scaling_checks"] = 1
+        if t_big > 2.0 and t_big > 9.0 * max(t_quarter, 1e-3):
+            bad.append({"what": "large side file: the reading time grows faster than linearly with the file length", "entries": nbig, "cpu_s": round(t_big, 2),
+                        "entries_quarter": nbig // 4, "cpu_s_quarter": round(t_quarter, 3), "case": case})
         got_env = [int(x) for x in system.space.get_cell_env_array()]
         got_ch = [int(bool(x)) for x in system.chemostats]
         for name, got, want in (("cell_env", got_env, cell_env), ("chemostats", got_ch, chst)):
